@@ -55,6 +55,41 @@ let () =
                 Buffer.add_string buf (Printf.sprintf "%d@%d " (int_of_z cnt) start)
             | _ -> ()) ops;
           print_endline (String.trim (Buffer.contents buf))
+      | "B" :: size :: script :: ops ->
+          (* bzip2 window: script "d:n:e,..." (e = 0 BZ_OK, 1 BZ_STREAM_END, E error) = the recorded
+             answers of BZ2_bzRead by decoder position; ops S<k> seek, R<k> read, Z size; one handle *)
+          let zi x = z_of_int (int_of_string x) in
+          let size = zi size in
+          let tbl = List.filter_map (fun e ->
+            match String.split_on_char ':' e with
+            | [d; n; "E"] -> Some (zi d, None)
+            | [d; n; f] -> Some (zi d, Some (zi n, f = "1"))
+            | _ -> None) (String.split_on_char ',' script) in
+          let orc = bz_script_orc tbl in
+          let fuel = nat_of_int (List.length tbl + 4) in
+          let st = ref bfresh in
+          let sts x = match x with BzDone -> "D" | BzErr -> "E" | BzFuel -> "F" in
+          let show s = Printf.sprintf "%d %d %d %d %d" (int_of_z s.bbase) (int_of_z s.bpos) (int_of_z s.bend)
+                         (if s.bsend then 1 else 0) (int_of_z s.bfpos) in
+          let buf = Buffer.create 256 in
+          List.iter (fun op ->
+            let k = String.sub op 1 (String.length op - 1) in
+            match op.[0] with
+            | 'S' ->
+                let ((s1, r), stt) = bz_seek size orc fuel !st (zi k) in
+                st := s1;
+                Buffer.add_string buf (Printf.sprintf "S%s %d %s %s|" k (int_of_z r) (show s1) (sts stt))
+            | 'R' ->
+                let c0 = int_of_z (bcursor !st) in
+                let (((s1, r), out), stt) = bz_read size orc fuel !st (zi k) in
+                st := s1;
+                let tot = List.fold_left (fun a (_, l) -> a + int_of_z l) 0 out in
+                Buffer.add_string buf (Printf.sprintf "R%s %d %s %s %d %d|" k (int_of_z r) (show s1) (sts stt) c0 tot)
+            | 'Z' ->
+                let (r, stt) = bz_size size orc fuel in
+                Buffer.add_string buf (Printf.sprintf "Z %s %s|" (match r with Some v -> string_of_int (int_of_z v) | None -> "-1") (sts stt))
+            | _ -> ()) ops;
+          print_endline (Buffer.contents buf)
       | _ -> print_endline "?"
     done
   with End_of_file -> ()
